@@ -5,8 +5,9 @@ import AioModel.Generated.C16
 
 State (`Jar`) = the five containers of `CookieJar`:
 
-* `cookies`      = `_cookies`            map `(domain, path) → name → Morsel`, kept as a flat
-                                          insertion-ordered list of entries keyed `(domain, path, name)`
+* `keys`, `cookies` = `_cookies`         map `(domain, path) → name → Morsel`, kept as the list of dict
+                                          keys in creation order plus a flat insertion-ordered list of
+                                          entries keyed `(domain, path, name)`
 * `hostOnly`     = `_host_only_cookies`  set of `(domain, name)`   (no path — see finding F10)
 * `expirations`  = `_expirations`        map `(domain, path, name) → deadline`
 * `heap`         = `_expire_heap`        bag of `(deadline, key)`; `heapq` is trusted to be a
@@ -30,10 +31,8 @@ Not modelled (inputs arrive already parsed, see the harness): `http.cookies`,
 `yarl.URL` (`raw_host`, `path`, `scheme`), value quoting in `_build_morsel`,
 `treat_as_secure_origin` (empty).  Time is an `Int` (seconds, virtual clock).
 
-Two literal details are dropped because nothing observable depends on them: the
-`if not self._cookies` short-cuts of `filter_cookies` (an empty dict implies an empty heap)
-and the `!=` test before overwriting an equal Morsel (it only avoids rebuilding an equal
-cache entry).
+One literal detail is dropped because nothing observable depends on it: the `!=` test
+before overwriting an equal Morsel (it only avoids rebuilding an equal cache entry).
 -/
 namespace Aio.C16
 open Aio
@@ -142,6 +141,9 @@ deriving Repr, DecidableEq, BEq
 def Entry.key (e : Entry) : Key := (e.dom, e.pkey, e.c.name)
 
 structure Jar where
+  /-- the keys of the `_cookies` defaultdict in creation order (reads create keys, emptied
+  `SimpleCookie`s stay until `clear()`); only `save()` depends on this order -/
+  keys : List (Str × Str) := []
   cookies : List Entry := []
   hostOnly : List (Str × Str) := []
   expirations : List (Key × Int) := []
@@ -177,6 +179,7 @@ def expireCookie (j : Jar) (w : Int) (k : Key) : Jar :=
 /-- one iteration of `_delete_cookies` -/
 def deleteOne (j : Jar) (k : Key) : Jar :=
   { j with
+    keys := sadd (k.1, k.2.1) j.keys        -- `self._cookies[(domain, path)]` creates a missing key
     hostOnly := sdel (k.1, k.2.2) j.hostOnly
     cookies := j.cookies.filter (fun e => !(e.key == k))
     cache := adel k j.cache
@@ -206,7 +209,7 @@ def putEntry (e : Entry) : List Entry → List Entry
 
 /-- `self._cookies[key][name] = cookie; self._morsel_cache[key].pop(name, None)` -/
 def storeEntry (j : Jar) (e : Entry) : Jar :=
-  { j with cookies := putEntry e j.cookies, cache := adel e.key j.cache }
+  { j with keys := sadd (e.dom, e.pkey) j.keys, cookies := putEntry e j.cookies, cache := adel e.key j.cache }
 
 /-- domain normalisation of the loop body: returns (jar with host-only mark, domain) -/
 def normDomain (j : Jar) (host : Option Str) (name : Str) (dattr : Str) : Jar × Str :=
@@ -285,7 +288,9 @@ def assign (acc : Jar × List (Str × Str)) (e : Entry) : Jar × List (Str × St
 filled) and the name → value map. -/
 def filter (allowIp : Bool) (now : Int) (j : Jar) (host rpath : Str) (secureReq : Bool) :
     Jar × List (Str × Str) :=
+  if j.keys.isEmpty then (j, []) else          -- `if not self._cookies: return filtered`
   let j := doExpiration j now
+  let j := { j with keys := sadd ([], []) j.keys }   -- `self._cookies[("", "")]`
   (hits allowIp j host rpath secureReq).foldl assign (j, [])
 
 /-! ## clear -/
@@ -312,8 +317,8 @@ deriving Repr
 
 /-- `save()`: per cookie the truthy Morsel attributes, `host_only`, `expires_timestamp` -/
 def save (j : Jar) : List Saved :=
-  j.cookies.map (fun e =>
-    ⟨e.dom, e.pkey, e.c, j.hostOnly.contains (e.dom, e.c.name), aget e.key j.expirations⟩)
+  j.keys.flatMap (fun dp => (atKey j dp.1 dp.2).map (fun e =>
+    ⟨e.dom, e.pkey, e.c, j.hostOnly.contains (e.dom, e.c.name), aget e.key j.expirations⟩))
 
 /-- the Morsel `_load_json_data` rebuilds (no max-age / expires; domain dropped when host_only) -/
 def Saved.raw (s : Saved) : Raw :=
